@@ -37,7 +37,7 @@ func prioritySets(quick bool) [][]uint {
 	}
 	// priority values at the top of the type, 2^63 or more apart
 	u := uint(1) << 60
-	for _, l := range [][]uint{{11 * u, u}, {11 * u, 2 * u, u}, {1<<64 - 1, 1}, {1 << 63, 5, 1}, {1<<64 - 1, 1 << 63, 1 << 62}, {15 * u, 7 * u, 3}} {
+	for _, l := range [][]uint{{11 * u, u}, {11 * u, 2 * u, u}, {1<<64 - 1, 1}, {1 << 63, 5, 1}, {1<<64 - 1, 1 << 63, 1 << 62}, {15 * u, 7 * u, 3}, {0}, {1, 0}, {3, 2, 0}} {
 		out = append(out, l)
 	}
 	// {1..6} and its subsets
@@ -120,6 +120,7 @@ func checkUtils(quick bool) []*result {
 			for q := uint(0); q <= maxQ; q++ {
 				s.inputs++
 				s.evals++
+				s.mark("IsNonFatalConfig/IsSuitableConfig with divider "+dp.name+", quantity", prios, uint64(q), 0, 0, 0)
 				ref := refNonFatal(prios, dp.v2, q)
 				nonFatal[q] = ref
 				got2 := utils2.IsNonFatalConfig(shuffled(prios, i), dp.v2, q)
@@ -165,6 +166,7 @@ func checkUtils(quick bool) []*result {
 			// PickUp*: scan of the reference predicate / of the function's own predicate
 			for _, max := range []uint{0, 1, 2, 3, 7, maxQ / 2, maxQ} {
 				s.evals++
+				s.mark("PickUp{Min,Max}{NonFatal,Suitable}Quantity with divider "+dp.name+", maximum quantity", prios, uint64(max), 0, 0, 0)
 				minRef, maxRef := uint(0), uint(0)
 				for q := uint(1); q <= max; q++ {
 					if nonFatal[q] {
@@ -187,6 +189,7 @@ func checkUtils(quick bool) []*result {
 					s.fail(fmt.Sprintf("v1 PickUpMaxNonFatalQuantity = %d, by definition %d", g, maxRef), fmt.Sprintf("PickUpMaxNonFatalQuantity(%v, %s, %d)", prios, dp.name, max), fmt.Sprint(g), "")
 				}
 				for _, l := range []float64{5, 25, 100} {
+					s.mark("PickUp{Min,Max}SuitableQuantity with divider "+dp.name+", maximum quantity, limit", prios, uint64(max), 0, 0, l)
 					smin, smax := uint(0), uint(0)
 					for q := uint(1); q <= max; q++ {
 						if utils2.IsSuitableConfig(shuffled(prios, i+1), dp.v2, q, l) {
